@@ -4,8 +4,13 @@
    Vocabulary (coq/Ref.v, coq/RefFacts.v).  A history is a list of cycles [cyc]: in
    each cycle the selector source may tick with a value, each target may tick with a
    payload, and the unrelated poke source may tick.  [wf] = times strictly increasing.
-     spec_sel op cs     the target designated by the latest selector value
-                        (if_then_else for op 0, if_cmp for op 1)
+     spec_sel op cs     the target the selection designates after cs, a fold over the
+                        script alone: for the plain ops (if_then_else 0/3/5, if_cmp 1) the
+                        target picked by the latest selector value ([plain_designation]);
+                        for the CHAINED ops (6: if_then_else(c2, if_then_else(c1,A,B), C),
+                        7: if_cmp(cmp2, if_then_else(c1,A,B), C, C)) the composition of the
+                        two selectors, same-reference de-duplication at each level
+                        ([chained_*] below say what it is in the relevant cases)
      spec_tgt sh i cs   target i as a plain time-series: the fold of ITS OWN ticks
      last_out sh op pre c   what the mechanism does in cycle c after ANY history pre:
                         o_cons = the consumers below the reference that are evaluated,
@@ -145,7 +150,7 @@ Print Assumptions keyed_retarget_is_diff_refuted.
    republishes nothing — the reference output does not tick — and unless that target
    itself ticks nothing reaches the consumers. *)
 Theorem same_reference_no_tick : forall sh op pre c v,
-  wf (pre ++ [c]) ->
+  wf (pre ++ [c]) -> chained op = false ->
   c_sel c = Some v -> spec_sel op pre = Some (sel_target op v) ->
   o_ref (last_out sh op pre c) = false /\
   (ticks c (sel_target op v) = false ->
@@ -154,6 +159,54 @@ Theorem same_reference_no_tick : forall sh op pre c v,
      r_mod r = false /\ r_upd r = [] /\ r_rem r = []).
 Proof. exact RefFacts.same_reference_no_tick_l. Qed.
 Print Assumptions same_reference_no_tick.
+
+(* the same for ANY selector activity, chained ops included (e.g. the inner selector
+   flipping while the outer one designates C; if_cmp going from EQ to GT, both C): as long
+   as the designation is unchanged the reference does not tick and nothing reaches *)
+Theorem same_designation_no_tick : forall sh op pre c,
+  wf (pre ++ [c]) ->
+  spec_sel op (pre ++ [c]) = spec_sel op pre ->
+  o_ref (last_out sh op pre c) = false /\
+  ((forall j, spec_sel op pre = Some j -> ticks c j = false) ->
+   forall cid r, In (cid, r) (o_cons (last_out sh op pre c)) ->
+     (c_force c = true \/ (c_poke c = true /\ (cid = 1%nat \/ cid = 2%nat \/ c_nest c = true))) /\
+     r_mod r = false /\ r_upd r = [] /\ r_rem r = []).
+Proof. exact RefFacts.same_designation_no_tick_l. Qed.
+Print Assumptions same_designation_no_tick.
+
+(* what spec_sel is: plain ops *)
+Theorem plain_designation : forall op pre c v,
+  chained op = false -> c_sel c = Some v -> spec_sel op (pre ++ [c]) = Some (sel_target op v).
+Proof. exact RefFacts.plain_designation. Qed.
+Print Assumptions plain_designation.
+
+(* what spec_sel is: chained ops.  (1) the OUTER selector is quiet and designates the
+   inner branch, the INNER selector flips: the consumer-side reference is retargeted to the
+   inner selector's new target in this very cycle — with link_follows_selection and
+   retarget_ticks_same_cycle (which hold for every op) the consumers are evaluated in that
+   cycle, see the new target as modified, and by unselected_never_reaches no longer see
+   the de-selected one.  (2), (3) the outer selector switching branches. *)
+Theorem chained_inner_flip_retargets : forall op pre c v v2,
+  chained op = true ->
+  c_sel2 c = None -> s_c2 (spec_selst op pre) = Some v2 -> picks_inner op v2 = true ->
+  c_sel c = Some v ->
+  s_in (spec_selst op pre) <> Some (sel_target 0 v) ->
+  spec_sel op (pre ++ [c]) = Some (sel_target 0 v).
+Proof. exact RefFacts.chained_inner_flip_retargets_l. Qed.
+Print Assumptions chained_inner_flip_retargets.
+
+Theorem chained_outer_to_inner : forall op pre c v2 j,
+  chained op = true -> c_sel c = None ->
+  c_sel2 c = Some v2 -> picks_inner op v2 = true -> s_in (spec_selst op pre) = Some j ->
+  spec_sel op (pre ++ [c]) = Some j.
+Proof. exact RefFacts.chained_outer_to_inner_l. Qed.
+Print Assumptions chained_outer_to_inner.
+
+Theorem chained_outer_to_c : forall op pre c v2,
+  chained op = true -> c_sel2 c = Some v2 -> picks_inner op v2 = false ->
+  spec_sel op (pre ++ [c]) = Some 2%nat.
+Proof. exact RefFacts.chained_outer_to_c_l. Qed.
+Print Assumptions chained_outer_to_c.
 
 Theorem reference_ticks_iff_retarget : forall sh op pre c,
   wf (pre ++ [c]) ->
@@ -201,12 +254,12 @@ Print Assumptions direct_readers_see_own_history.
 (* A history with: selection of A, ticks of A and B, a same-value selector tick, a
    retarget to B (valid, not ticking in that cycle), a tick of the unselected A. *)
 Definition ex_pre : list cyc :=
-  [mkC 1 (Some 1) [Some [1; 2]; None; None] false false false;
-   mkC 2 None [Some [3]; Some [2; 5]; None] true false false;
-   mkC 4 (Some 1) [None; Some [6]; None] false false false].
-Definition ex_retarget : cyc := mkC 5 (Some 0) [Some [7]; None; None] false false false.     (* to B; only A (old) ticks *)
-Definition ex_tick : cyc := mkC 5 None [Some [7]; None; None] true false false.              (* the designated A ticks *)
-Definition ex_unsel : cyc := mkC 5 (Some 1) [None; Some [-2]; None] true false false.        (* same selection; only B ticks *)
+  [mkC 1 (Some 1) None [Some [1; 2]; None; None] false false false;
+   mkC 2 None None [Some [3]; Some [2; 5]; None] true false false;
+   mkC 4 (Some 1) None [None; Some [6]; None] false false false].
+Definition ex_retarget : cyc := mkC 5 (Some 0) None [Some [7]; None; None] false false false.     (* to B; only A (old) ticks *)
+Definition ex_tick : cyc := mkC 5 None None [Some [7]; None; None] true false false.              (* the designated A ticks *)
+Definition ex_unsel : cyc := mkC 5 (Some 1) None [None; Some [-2]; None] true false false.        (* same selection; only B ticks *)
 
 Example ex_wf : wf (ex_pre ++ [ex_retarget]) /\ wf (ex_pre ++ [ex_tick]) /\ wf (ex_pre ++ [ex_unsel]).
 Proof. unfold wf; simpl; lia. Qed.
@@ -267,6 +320,32 @@ Example ex_nested_ref_param :
    [20; 0; 3; 1; 0; 2; 1; 0; 100; 0; 0]; [20; 1; 3; 1; 0; 2; 1; 0; 100; 0; 0];
    [20; 2; 3; 1; 0; 2; 1; 0; 100; 0; 0]; [20; 3; 3; 1; 0; 2; 1; 0; 100; 0; 0];
    [21; 2; 4; 1; 1; 4; 1; 0; 200; 1; 0; 200; 0]].
+Proof. vm_compute. reflexivity. Qed.
+
+(* CHAINED selection (op 6): c2 selects the inner branch at t=2 and stays quiet; c1 flips
+   A -> B at t=4: the consumers are evaluated at t=4 and read B as modified; A's tick
+   at t=5 no longer reaches them, B's tick at t=6 does *)
+Definition ex_chain_pre : list cyc :=
+  [mkC 1 None None [Some [100]; Some [200]; Some [300]] false false false;
+   mkC 2 None (Some 1) [None; None; None] false false false;
+   mkC 3 (Some 1) None [None; Some [201]; None] false false false].
+Definition ex_chain_flip : cyc := mkC 4 (Some 0) None [None; None; None] false false false.
+Example ex_chained_hyps :
+  chained 6 = true /\ c_sel2 ex_chain_flip = None /\ s_c2 (spec_selst 6 ex_chain_pre) = Some 1 /\
+  picks_inner 6 1 = true /\ s_in (spec_selst 6 ex_chain_pre) <> Some (sel_target 0 0) /\
+  spec_sel 6 ex_chain_pre = Some 0%nat /\ spec_sel 6 (ex_chain_pre ++ [ex_chain_flip]) = Some 1%nat /\
+  o_cons (last_out ShTS 6 ex_chain_pre ex_chain_flip) =
+    let r := mkR true true 4 [(0, 201)] [(0, 201)] [] in [(0%nat, r); (1%nat, r); (3%nat, r)].
+Proof. vm_compute. repeat split; try reflexivity; discriminate. Qed.
+
+Example ex_chained_case_file :
+  filter (fun l => hdz l =? 20) (filter (fun l => nthz 1 l =? 0)
+    (run_ref [[1; 1; 10; 0; 6]; [2; 1; 1; 100]; [2; 2; 1; 200]; [2; 3; 1; 300]; [2; 4; 2; 1]; [2; 0; 3; 1];
+              [2; 0; 4; 0]; [2; 1; 5; 101]; [2; 2; 6; 202]; [2; 4; 7; 0]; [2; 0; 8; 1]])) =
+  [[20; 0; 3; 1; 1; 3; 1; 0; 100; 1; 0; 100; 0];
+   [20; 0; 4; 1; 1; 4; 1; 0; 200; 1; 0; 200; 0];
+   [20; 0; 6; 1; 1; 6; 1; 0; 202; 1; 0; 202; 0];
+   [20; 0; 7; 1; 1; 7; 1; 0; 300; 1; 0; 300; 0]].
 Proof. vm_compute. reflexivity. Qed.
 
 (* the decoder meets the hypothesis of every theorem on a concrete case file, and the
